@@ -72,7 +72,10 @@ def check_array_readme(path, scratch, model_shape=None, has_meta=None, who='arra
         txt = cur.decode('utf-8', errors='replace')
         fresh = darr.Array(path)
         for lang in fresh.readcodelanguages:
-            code = fresh.readcode(lang)
+            try:
+                code = fresh.readcode(lang)
+            except Exception:
+                continue            # a readcode() that raises is C06's subject; nothing to compare the README with
             if code is not None and not contains_code(txt, code):
                 return (f'readme.{who}', f'snippet_missing:{lang}', '')
         shape = tuple(fresh.shape)
@@ -81,9 +84,11 @@ def check_array_readme(path, scratch, model_shape=None, has_meta=None, who='arra
             if not re.search(rf'(?<![\d.]){shape[0]}(?![\d.])', descr):
                 return (f'readme.{who}', 'length_not_stated', '')
         else:
-            # the extents occur on one line, in order, as numbers (whatever the punctuation: (3, 2), 3 x 2 ...)
-            pat = r'(?<![\d.])' + r'\D+'.join(str(x) for x in shape) + r'(?![\d.])'
-            if not any(re.search(pat, ln) for ln in descr.splitlines()):
+            # the extents occur in the description, in order, as numbers - whatever the punctuation and line
+            # layout: "(3, 2)", "3 x 2", one axis per line ...
+            nums = [int(t) for t in re.findall(r'(?<![\d.])\d+(?![\d.])', descr)]
+            it = iter(nums)
+            if not all(any(x == y for y in it) for x in shape):
                 return (f'readme.{who}', 'dimensions_not_stated', '')
         mentioned = 'metadata.json' in txt
         hm = os.path.exists(os.path.join(path, 'metadata.json')) if has_meta is None else has_meta
@@ -120,21 +125,35 @@ def check_ragged_readme(path, scratch, model_lens=None):
         txt = cur.decode('utf-8', errors='replace')
         fresh = darr.RaggedArray(path)
         for lang in fresh.readcodelanguages:
-            code = fresh.readcode(lang)
+            try:
+                code = fresh.readcode(lang)
+            except Exception:
+                continue            # C07's subject
             if code is not None and not contains_code(txt, code):
                 return ('readme.ragged', f'snippet_missing:{lang}', '')
         if model_lens is not None:
-            n = len(model_lens)
+            n = len(fresh)                       # 'current' = what the array on disk holds (Darr API, fresh handle)
             flat = ' '.join(txt.split())
             head = flat.split('Example code')[0]
             if not re.search(rf'(?<![\d.]){n}(?![\d.])', head):     # tolerant of rewording: the count occurs
                 return ('readme.ragged', 'count_not_stated', f'n={n}')
-            want = [(k, model_lens[k]) for k in range(min(n, 5))]
-            if n > 5:
-                want.append((n - 1, model_lens[n - 1]))
-            for k, l in want:
-                if not re.search(rf'(?m)^\D*{k}\D+{l}(\D|$)', txt):   # a line listing k, then its length
-                    return ('readme.ragged', 'subarray_dims_not_listed', f'k={k} len={l}')
+            # "the listed subarray dimensions are the current ones": every line that lists a subarray (nothing but
+            # numbers and punctuation: index, then its dimensions) names an existing subarray and its current
+            # length; which subarrays a README lists is not prescribed
+            listed = 0
+            for ln in txt.split('Example code')[0].splitlines():
+                if not re.fullmatch(r'[\s\d:,;()\[\]x×.=\-]*', ln):
+                    continue
+                ints = [int(t) for t in re.findall(r'\d+', ln)]
+                if len(ints) < 2:
+                    continue
+                k, l = ints[0], ints[1]
+                if k >= n:
+                    return ('readme.ragged', 'lists_nonexisting_subarray', f'k={k} n={n}')
+                cur_l = int(fresh[k].shape[0])
+                if cur_l != l:
+                    return ('readme.ragged', 'listed_subarray_dims_not_current', f'k={k} listed={l} current={cur_l}')
+                listed += 1
     finally:
         shutil.rmtree(scratch, ignore_errors=True)
     return None
